@@ -108,6 +108,11 @@ def mean_of(samples):
 
 
 def run(case):
+    with np.errstate(all="ignore"):
+        return _run(case)
+
+
+def _run(case):
     res = CaseResult()
     n, m, npt, lam = case["n"], case["m"], case["npt"], case["lam"]
     x0 = np.array(case["x0"], dtype=float)
@@ -149,17 +154,18 @@ def run(case):
                 res.fail("C17.eval_num", "step %d %s: slot %d carries evaluation number %d, expected %d" % (step, op, k, mdl.eval_num[k], s["en"]))
                 return False
             want = objective(lam, s["x"], rm)
-            tol = 16 * EPS * ns * (abs(want) if math.isfinite(want) else 1.0) + (lam or 0.0) * n * tolx + 1e-300
+            # the stored mean is known to 8*eps*ns*rmax per component, so its square sum to ~2*|r|*that
+            tol = 16 * EPS * ns * ((abs(want) if math.isfinite(want) else 1.0) + m * rmax * rmax) + (lam or 0.0) * n * tolx + 1e-300
             if not same(mdl.objval[k], want, tol):
                 res.fail("C17.objval", "step %d %s: slot %d objective %r, expected sum(mean^2)+h = %r" % (step, op, k, mdl.objval[k], want))
                 return False
         # incumbent
         objs = [slot_obj(s) for s in slots]
-        fin = [v for v in objs if not math.isnan(v)]
+        fin = [v for v in objs if math.isfinite(v)]      # +-inf objectives are as unusable as NaN: only finite values rank
         if not (0 <= mdl.kopt < len(slots)):
             res.fail("C17.kopt", "step %d %s: kopt=%r out of range" % (step, op, mdl.kopt))
             return False
-        if kopt_valid and fin and not math.isnan(objs[mdl.kopt]):
+        if kopt_valid and fin and math.isfinite(objs[mdl.kopt]):
             best = min(fin)
             tol = 16 * EPS * 3 * (abs(best) if math.isfinite(best) else 1.0) + 1e-300
             if not (objs[mdl.kopt] <= best + tol):
@@ -167,6 +173,9 @@ def run(case):
                 return False
         elif kopt_valid and fin and math.isnan(objs[mdl.kopt]):
             res.fail("C17.kopt", "step %d %s: kopt=%d designates a NaN objective although finite ones are stored" % (step, op, mdl.kopt))
+            return False
+        elif kopt_valid and fin:
+            flags["exempt"] += 1          # incumbent is +-inf: not ranked
             return False
         else:
             flags["exempt"] += 1
@@ -198,8 +207,8 @@ def run(case):
             new_obj = objective(lam, xabs, r)
             if k == mdl.kopt:
                 others = [slot_obj(s) for i, s in enumerate(slots) if i != k]
-                others = [v for v in others if not math.isnan(v)]
-                if math.isnan(new_obj) or (others and new_obj > min(others)):
+                others = [v for v in others if math.isfinite(v)]
+                if not math.isfinite(new_obj) or (others and new_obj > min(others)):
                     kopt_valid = False      # the incumbent itself was overwritten by a worse point: exempt from now on
             mdl.change_point(k, xabs - mdl.xbase, r, next_en)
             slots[k] = {"x": xabs, "samples": [r], "en": next_en}
@@ -243,7 +252,7 @@ def run(case):
             rec = {"x": xabs, "r": r, "ns": op["ns"], "en": next_en, "obj": obj}
             next_en += 1
             inc = slot_obj(slots[mdl.kopt])
-            if math.isnan(obj) != math.isnan(inc):
+            if math.isfinite(obj) != math.isfinite(inc):
                 flags["nan_save_finite_inc"] = True
             if saved is None:
                 saved = [rec]
@@ -251,9 +260,11 @@ def run(case):
                 # the saved slot keeps the better record, any finite value beating NaN; candidates within rounding
                 # of each other are all acceptable (a tie never decides a verdict)
                 best = saved[0]["obj"]
-                if math.isnan(best) and not math.isnan(obj):
+                if not math.isfinite(best) and math.isfinite(obj):
                     saved = [rec]
-                elif math.isnan(obj):
+                elif not math.isfinite(best):
+                    saved = [rec] + saved       # NaN/inf against NaN/inf: either record is acceptable
+                elif not math.isfinite(obj):
                     pass
                 else:
                     tol = 16 * EPS * 3 * (abs(best) if math.isfinite(best) else 1.0)
@@ -268,9 +279,10 @@ def run(case):
                 res.fail("C17.final", "step %d: get_final_results raised %s: %s" % (step, type(e).__name__, e))
                 break
             inc = slots[mdl.kopt]
-            inc_rec = {"x": inc["x"], "r": mean_of(inc["samples"]), "ns": len(inc["samples"]), "en": inc["en"], "obj": slot_obj(inc)}
+            inc_rec = {"x": inc["x"], "r": mean_of(inc["samples"]), "ns": len(inc["samples"]), "en": inc["en"], "obj": slot_obj(inc),
+                       "rmax": max([1e-300] + [abs(v) for smp in inc["samples"] for v in smp if math.isfinite(v)])}
             cands = [inc_rec] + (saved or [])
-            finite = [c for c in cands if not math.isnan(c["obj"])]
+            finite = [c for c in cands if math.isfinite(c["obj"])]
             pool = finite if finite else cands
             best = min(c["obj"] for c in pool) if finite else float("nan")
             tol = 16 * EPS * 3 * (abs(best) if math.isfinite(best) else 1.0) + 1e-300
@@ -279,8 +291,8 @@ def run(case):
             tolx = (4 + 4 * nshift) * EPS * scale
             hit = False
             for c in allowed:
-                rmax = float(np.max(np.abs(c["r"][np.isfinite(c["r"])]))) if np.any(np.isfinite(c["r"])) else 1.0
-                if same(obj, c["obj"], 16 * EPS * 3 * (abs(c["obj"]) if math.isfinite(c["obj"]) else 1.0) + (lam or 0.0) * n * tolx + 1e-300) \
+                rmax = c.get("rmax") or (float(np.max(np.abs(c["r"][np.isfinite(c["r"])]))) if np.any(np.isfinite(c["r"])) else 1.0)
+                if same(obj, c["obj"], 16 * EPS * c["ns"] * ((abs(c["obj"]) if math.isfinite(c["obj"]) else 1.0) + m * rmax * rmax) + (lam or 0.0) * n * tolx + 1e-300) \
                         and vec_same(x, c["x"], tolx) and vec_same(r, c["r"], 8 * EPS * c["ns"] * max(rmax, 1e-300)) \
                         and int(ns) == c["ns"] and int(en) == c["en"]:
                     hit = True
